@@ -703,6 +703,8 @@ func validateFieldMapping(predecessorType reflect.Type, successorType reflect.Ty
 			return nil, fmt.Errorf("static check failed for mapping %s: %w", mapping, err)
 		}
 
+		mapping, successorFieldType := mapping, successorFieldType // the checkers below must not see later iterations' values
+
 		if successorIntermediateInterface {
 			if successorFieldType == reflect.TypeOf((*any)(nil)).Elem() {
 				continue // at request time expand this 'any' to 'map[string]any'
